@@ -608,7 +608,32 @@ def rule_coriolis(chk, prog):
   chk.minimum.pop('C12.6-coriolis-siblings', None)
 
 
+def rule_div_sec_lat(chk, prog):
+  """div_sec_lat(M, N) = ∇·((M, N)·sec²θ) through the cos-weighted divergence: both components carry exactly one sec²θ, the
+  operator is div_cos_lat of the pair in this order, and the top wavenumber is kept (clip=False) for the caller's final clip."""
+  rule = 'C05.2-coefficients'
+  f = prog.func(f'{PE}.div_sec_lat')
+  ev = sym.Evaluator(prog, sym.Options(opaque={'spherical_harmonic.Grid.to_modal', 'spherical_harmonic.Grid.div_cos_lat'}))
+  v, _, _ = ev.run(f)
+  site, loc = f'{PE}.div_sec_lat', (f.file, f.lineno)
+  ok = v.k == 'call' and util.callee_name(v) == 'div_cos_lat'
+  if chk.check(ok, rule, f'{site}: returns grid.div_cos_lat(·)', sym.show(v, maxdepth=2)[:120], loc):
+    kw = util.call_kwargs(v)
+    vec = kw.get('v')
+    okv = vec is not None and vec.k == 'tuple' and len(vec.a) == 2 and all(x.k == 'call' and util.callee_name(x) == 'to_modal' for x in vec.a)
+    if chk.check(okv, rule, f'{site}: of a pair of fields transformed to modal space', sym.show(vec, maxdepth=3)[:160] if vec is not None else 'missing', loc):
+      A = alg.Algebra(ev)
+      sec2 = A.name(lambda t: t.k == 'attr' and t.a[1] == 'sec2_lat', 'sec2', positive=True)
+      sn = A.name(lambda t: t.k == 'sub' and t.a[1] == sym.const(1) and sym.contains(t.a[0], lambda z: z.k == 'attr' and z.a[1] in ('nodal_axes', 'nodal_mesh')), 'sin_lat', real=True)
+      for comp, pn in zip(vec.a, ('m_component', 'n_component')):
+        arg = util.call_args(comp)[0]
+        # sec2_lat may appear as the grid attribute or inlined as 1/(1 − sin²θ) (decided equal under C05.6)
+        chk.check(alg.equal(A.conv(arg).subs(sec2, 1 / (1 - sn**2)), A.conv(S(pn)) / (1 - sn**2)), rule, f'{site}: component `{pn}` is multiplied by sec²θ once before the transform', sym.show(arg)[:100], loc, f'{pn} * sec2_lat', sym.show(arg)[:100])
+    chk.check(kw.get('clip') == sym.FALSE, rule, f'{site}: keeps the top wavenumber (clip=False; the tendencies are clipped once at the end)', sym.show(kw.get('clip')) if 'clip' in kw else 'default', loc)
+
+
 def run(chk, prog, tier):
+  rule_div_sec_lat(chk, prog)
   from rules import c01 as _c01m
   _c01m.rule_metric(chk, prog, rule='C05.6-metric-factors')
   from rules import c01 as _c01
